@@ -1544,9 +1544,11 @@ class CCModel:
         v = z3.Const(f"ccv!{k}", Vox)
         j = z3.Int(f"ccj!{k}")
         wit = z3.Function(f"ccwit_{backend}!{k}", I_, Vox)
-        inp = lambda q: arr.at(q)
+        def inp_nz(q):
+            t = arr.at(q)
+            return t if z3.is_bool(t) else (t != 0)  # a boolean mask is foreground where it is True
         eng.assume(z3.And(N >= 0,
-                          z3.ForAll([v], z3.And((cc(v) != 0) == (inp(v) != 0), cc(v) >= 0, cc(v) <= N), patterns=[cc(v)]),
+                          z3.ForAll([v], z3.And((cc(v) != 0) == inp_nz(v), cc(v) >= 0, cc(v) <= N), patterns=[cc(v)]),
                           z3.ForAll([j], z3.Implies(z3.And(1 <= j, j <= N), cc(wit(j)) == j), patterns=[wit(j)])),
                    why=f"assumed contract of the {backend} connected-components backend")
         out = VArr(cc(arr.space.x), "uint32" if backend == "cc3d" else "int32", arr.space)
